@@ -332,6 +332,8 @@ def judge_c04(H):
 def judge_c06(H):
     P = H["params"]
     V = []
+    if any(e.startswith("SimLivelock") for e in H["errors"]):
+        return [("member_task_spins_without_waiting", H["errors"][0][:400], {"errors": H["errors"]})], {}
     st = {"joingroups_checked": 0, "join_ok_replies_followed": 0, "join_then_sync": 0, "join_then_join_justified": 0,
           "members_converged": 0, "histories_with_convergence_judged": 0, "heartbeats_in_window": 0,
           "partitions_covered": 0, "mid_required_roundtrips": 0, "faults_on_group_requests": 0,
